@@ -104,7 +104,10 @@ type inst interface {
 	Unshard(aggs [][]byte, n uint) (any, error)
 	// Direct runs a whole honest batch on the Go values without any
 	// marshalling and returns the aggregate.
-	Direct(vk *VerifyKey, ms []any, nonces []Nonce, rands [][]byte) (any, error)
+	Direct(vk *VerifyKey, ms []any, nonces []Nonce, rands [][]byte) (mid, final any, err error)
+	// SetRepeat makes every operation run twice on the same operands; the
+	// two results must be equal.
+	SetRepeat(on bool)
 }
 
 // decodeErr: UnmarshalBinary refused the bytes.
@@ -129,9 +132,10 @@ type harnessViol struct{ key, detail string }
 func (e *harnessViol) Error() string { return e.key + ": " + e.detail }
 
 type adapter[P api[M, A, AS, IS, OS, PS, ST, PP], M, A, AS, IS, OS, PS, ST, PP any] struct {
-	v  P
-	pp PP
-	l  layout
+	v      P
+	pp     PP
+	l      layout
+	repeat bool // call every operation twice and compare
 }
 
 func newAdapter[P api[M, A, AS, IS, OS, PS, ST, PP], M, A, AS, IS, OS, PS, ST, PP any](name string, fs int, v P) inst {
@@ -193,33 +197,75 @@ func dec[T, PP any](pp *PP, typ string, b []byte, extra ...uint) (*T, error) {
 	return y, nil
 }
 
+// same: the operand x still marshals to before (the call left it unchanged).
+func same[T any](inst, op, operand string, x *T, before []byte) error {
+	after, err := any(x).(encoding.BinaryMarshaler).MarshalBinary()
+	if err != nil {
+		return &harnessViol{"C19/operand-modified/" + inst + "/" + op + "/" + operand, "operand no longer marshals: " + err.Error()}
+	}
+	if !bytes.Equal(before, after) {
+		return &harnessViol{"C19/operand-modified/" + inst + "/" + op + "/" + operand, fmt.Sprintf("before the call %x, after it %x", before, after)}
+	}
+	return nil
+}
+
+func notRepeatable(inst, op string, first, second any) error {
+	return &harnessViol{"C19/not-repeatable/" + inst + "/" + op, fmt.Sprintf("the same call on the same operands returned %v, then %v", first, second)}
+}
+
+func errStr(err error) string {
+	if err == nil {
+		return "<nil>"
+	}
+	return err.Error()
+}
+
+func (a *adapter[P, M, A, AS, IS, OS, PS, ST, PP]) SetRepeat(on bool) { a.repeat = on }
+
 func (a *adapter[P, M, A, AS, IS, OS, PS, ST, PP]) Shard(m any, nonce *Nonce, rand []byte) ([]byte, [][]byte, error) {
 	mm, ok := m.(M)
 	if !ok {
 		panic(fmt.Sprintf("measurement %T", m))
 	}
-	pub, ins, err := a.v.Shard(mm, nonce, rand)
-	if err != nil {
-		return nil, nil, &opErr{"Shard", err}
-	}
-	if len(ins) != a.l.shares {
-		return nil, nil, &harnessViol{"C19/shard/" + a.l.name + "/share-count", fmt.Sprintf("%d input shares for %d aggregators", len(ins), a.l.shares)}
-	}
-	pb, err := enc("PublicShare", &pub)
-	if err != nil {
-		return nil, nil, err
-	}
-	out := make([][]byte, len(ins))
-	for i := range ins {
-		out[i], err = enc("InputShare", &ins[i])
+	name := a.l.name
+	mBefore := fmt.Sprintf("%v", m)
+	nBefore, rBefore := *nonce, append([]byte{}, rand...)
+	run := func() ([]byte, [][]byte, error) {
+		pub, ins, err := a.v.Shard(mm, nonce, rand)
+		if err != nil {
+			return nil, nil, &opErr{"Shard", err}
+		}
+		if len(ins) != a.l.shares {
+			return nil, nil, &harnessViol{"C19/shard/" + name + "/share-count", fmt.Sprintf("%d input shares for %d aggregators", len(ins), a.l.shares)}
+		}
+		pb, err := enc("PublicShare", &pub)
 		if err != nil {
 			return nil, nil, err
 		}
+		out := make([][]byte, len(ins))
+		for i := range ins {
+			out[i], err = enc("InputShare", &ins[i])
+			if err != nil {
+				return nil, nil, err
+			}
+		}
+		return pb, out, nil
 	}
-	return pb, out, nil
+	pb, out, err := run()
+	if fmt.Sprintf("%v", m) != mBefore || *nonce != nBefore || !bytes.Equal(rand, rBefore) {
+		return nil, nil, &harnessViol{"C19/operand-modified/" + name + "/Shard/inputs", "Shard wrote to its measurement, nonce or randomness"}
+	}
+	if a.repeat {
+		pb2, out2, err2 := run()
+		if errStr(err) != errStr(err2) || !bytes.Equal(pb, pb2) || !bytes.Equal(bytes.Join(out, nil), bytes.Join(out2, nil)) {
+			return nil, nil, notRepeatable(name, "Shard", errStr(err), errStr(err2))
+		}
+	}
+	return pb, out, err
 }
 
 func (a *adapter[P, M, A, AS, IS, OS, PS, ST, PP]) PrepInit(vk *VerifyKey, nonce *Nonce, id uint8, pub, in []byte) ([]byte, []byte, error) {
+	name := a.l.name
 	ps, err := dec[PublicShare](&a.pp, "PublicShare", pub)
 	if err != nil {
 		return nil, nil, err
@@ -228,22 +274,43 @@ func (a *adapter[P, M, A, AS, IS, OS, PS, ST, PP]) PrepInit(vk *VerifyKey, nonce
 	if err != nil {
 		return nil, nil, err
 	}
-	st, sh, err := a.v.PrepInit(vk, nonce, id, *ps, *is)
-	if err != nil {
-		return nil, nil, &opErr{"PrepInit", err}
+	vkBefore, nBefore := *vk, *nonce
+	run := func() ([]byte, []byte, error) {
+		st, sh, err := a.v.PrepInit(vk, nonce, id, *ps, *is)
+		if err != nil {
+			return nil, nil, &opErr{"PrepInit", err}
+		}
+		stb, err := enc("PrepState", st)
+		if err != nil {
+			return nil, nil, err
+		}
+		shb, err := enc("PrepShare", sh)
+		if err != nil {
+			return nil, nil, err
+		}
+		return stb, shb, nil
 	}
-	stb, err := enc("PrepState", st)
-	if err != nil {
-		return nil, nil, err
+	stb, shb, err := run()
+	if *vk != vkBefore || *nonce != nBefore {
+		return nil, nil, &harnessViol{"C19/operand-modified/" + name + "/PrepInit/key-or-nonce", "PrepInit wrote to the verify key or nonce"}
 	}
-	shb, err := enc("PrepShare", sh)
-	if err != nil {
-		return nil, nil, err
+	if e := same(name, "PrepInit", "PublicShare", ps, pub); e != nil {
+		return nil, nil, e
 	}
-	return stb, shb, nil
+	if e := same(name, "PrepInit", "InputShare", is, in); e != nil {
+		return nil, nil, e
+	}
+	if a.repeat {
+		stb2, shb2, err2 := run()
+		if errStr(err) != errStr(err2) || !bytes.Equal(stb, stb2) || !bytes.Equal(shb, shb2) {
+			return nil, nil, notRepeatable(name, "PrepInit", errStr(err), errStr(err2))
+		}
+	}
+	return stb, shb, err
 }
 
 func (a *adapter[P, M, A, AS, IS, OS, PS, ST, PP]) PrepSharesToPrep(pss [][]byte) ([]byte, error) {
+	name := a.l.name
 	shares := make([]PS, len(pss))
 	for i := range pss {
 		s, err := dec[PS](&a.pp, "PrepShare", pss[i])
@@ -252,14 +319,30 @@ func (a *adapter[P, M, A, AS, IS, OS, PS, ST, PP]) PrepSharesToPrep(pss [][]byte
 		}
 		shares[i] = *s
 	}
-	msg, err := a.v.PrepSharesToPrep(shares)
-	if err != nil {
-		return nil, &opErr{"PrepSharesToPrep", err}
+	run := func() ([]byte, error) {
+		msg, err := a.v.PrepSharesToPrep(shares)
+		if err != nil {
+			return nil, &opErr{"PrepSharesToPrep", err}
+		}
+		return enc("PrepMessage", msg)
 	}
-	return enc("PrepMessage", msg)
+	mb, err := run()
+	for i := range shares {
+		if e := same(name, "PrepSharesToPrep", "PrepShare", &shares[i], pss[i]); e != nil {
+			return nil, e
+		}
+	}
+	if a.repeat {
+		mb2, err2 := run()
+		if errStr(err) != errStr(err2) || !bytes.Equal(mb, mb2) {
+			return nil, notRepeatable(name, "PrepSharesToPrep", errStr(err), errStr(err2))
+		}
+	}
+	return mb, err
 }
 
 func (a *adapter[P, M, A, AS, IS, OS, PS, ST, PP]) PrepNext(st, msg []byte) ([]byte, error) {
+	name := a.l.name
 	s, err := dec[ST](&a.pp, "PrepState", st)
 	if err != nil {
 		return nil, err
@@ -268,19 +351,51 @@ func (a *adapter[P, M, A, AS, IS, OS, PS, ST, PP]) PrepNext(st, msg []byte) ([]b
 	if err != nil {
 		return nil, err
 	}
-	out, err := a.v.PrepNext(s, m)
-	if err != nil {
-		return nil, &opErr{"PrepNext", err}
+	run := func() ([]byte, error) {
+		out, err := a.v.PrepNext(s, m)
+		if err != nil {
+			return nil, &opErr{"PrepNext", err}
+		}
+		return enc("OutShare", out)
 	}
-	return enc("OutShare", out)
+	ob, err := run()
+	if e := same(name, "PrepNext", "PrepState", s, st); e != nil {
+		return nil, e
+	}
+	if e := same(name, "PrepNext", "PrepMessage", m, msg); e != nil {
+		return nil, e
+	}
+	if a.repeat {
+		ob2, err2 := run()
+		if errStr(err) != errStr(err2) || !bytes.Equal(ob, ob2) {
+			return nil, notRepeatable(name, "PrepNext", errStr(err), errStr(err2))
+		}
+	}
+	return ob, err
 }
 
 func (a *adapter[P, M, A, AS, IS, OS, PS, ST, PP]) AggInit() ([]byte, error) {
 	s := a.v.AggregateInit()
-	return enc("AggShare", &s)
+	b, err := enc("AggShare", &s)
+	if err != nil {
+		return nil, err
+	}
+	s2 := a.v.AggregateInit()
+	b2, err := enc("AggShare", &s2)
+	if err != nil {
+		return nil, err
+	}
+	if !bytes.Equal(b, b2) {
+		return nil, notRepeatable(a.l.name, "AggregateInit", fmt.Sprintf("%x", b), fmt.Sprintf("%x", b2))
+	}
+	return b, nil
 }
 
+// AggUpdate: the aggregation share is the accumulator (updated by design),
+// the output share is an operand and must stay as it was; updating a second
+// copy of the accumulator with the same output share must give the same.
 func (a *adapter[P, M, A, AS, IS, OS, PS, ST, PP]) AggUpdate(agg, out []byte) ([]byte, error) {
+	name := a.l.name
 	s, err := dec[AS](&a.pp, "AggShare", agg)
 	if err != nil {
 		return nil, err
@@ -290,10 +405,35 @@ func (a *adapter[P, M, A, AS, IS, OS, PS, ST, PP]) AggUpdate(agg, out []byte) ([
 		return nil, err
 	}
 	a.v.AggregateUpdate(s, o)
-	return enc("AggShare", s)
+	if e := same(name, "AggregateUpdate", "OutShare", o, out); e != nil {
+		return nil, e
+	}
+	b, err := enc("AggShare", s)
+	if err != nil {
+		return nil, err
+	}
+	if a.repeat {
+		s2, err := dec[AS](&a.pp, "AggShare", agg)
+		if err != nil {
+			return nil, err
+		}
+		a.v.AggregateUpdate(s2, o)
+		b2, err := enc("AggShare", s2)
+		if err != nil {
+			return nil, err
+		}
+		if !bytes.Equal(b, b2) {
+			return nil, notRepeatable(name, "AggregateUpdate", fmt.Sprintf("%x", b), fmt.Sprintf("%x", b2))
+		}
+	}
+	return b, nil
 }
 
+// Unshard: every aggregation share must be left as it was (a collector may
+// retry, and the aggregators go on aggregating), and a second Unshard of the
+// same shares must return the same aggregate.
 func (a *adapter[P, M, A, AS, IS, OS, PS, ST, PP]) Unshard(aggs [][]byte, n uint) (any, error) {
+	name := a.l.name
 	shares := make([]AS, len(aggs))
 	for i := range aggs {
 		s, err := dec[AS](&a.pp, "AggShare", aggs[i])
@@ -302,53 +442,87 @@ func (a *adapter[P, M, A, AS, IS, OS, PS, ST, PP]) Unshard(aggs [][]byte, n uint
 		}
 		shares[i] = *s
 	}
-	r, err := a.v.Unshard(shares, n)
-	if err != nil {
-		return nil, &opErr{"Unshard", err}
+	run := func() (any, error) {
+		r, err := a.v.Unshard(shares, n)
+		if err != nil {
+			return nil, &opErr{"Unshard", err}
+		}
+		if r == nil {
+			return nil, &opErr{"Unshard", errors.New("nil aggregate without error")}
+		}
+		return any(*r), nil
 	}
-	if r == nil {
-		return nil, &opErr{"Unshard", errors.New("nil aggregate without error")}
+	r, err := run()
+	for i := range shares {
+		if e := same(name, "Unshard", "AggShare", &shares[i], aggs[i]); e != nil {
+			return nil, e
+		}
 	}
-	return any(*r), nil
+	r2, err2 := run()
+	if errStr(err) != errStr(err2) || fmt.Sprint(r) != fmt.Sprint(r2) {
+		return nil, notRepeatable(name, "Unshard", fmt.Sprint(r, " ", errStr(err)), fmt.Sprint(r2, " ", errStr(err2)))
+	}
+	return r, err
 }
 
-func (a *adapter[P, M, A, AS, IS, OS, PS, ST, PP]) Direct(vk *VerifyKey, ms []any, nonces []Nonce, rands [][]byte) (any, error) {
+// Direct: a running aggregation on the Go values without any marshalling:
+// collected once half way (the result is returned as mid), extended with the
+// remaining reports, collected twice at the end.
+func (a *adapter[P, M, A, AS, IS, OS, PS, ST, PP]) Direct(vk *VerifyKey, ms []any, nonces []Nonce, rands [][]byte) (mid, final any, err error) {
 	n := a.l.shares
+	name := a.l.name
 	aggs := make([]AS, n)
 	for i := range aggs {
 		aggs[i] = a.v.AggregateInit()
 	}
+	collect := func(k uint) (any, error) {
+		r, err := a.v.Unshard(aggs, k)
+		if err != nil {
+			return nil, &opErr{"Unshard", err}
+		}
+		return any(*r), nil
+	}
+	half := (len(ms) + 1) / 2
 	for k, m := range ms {
 		pub, ins, err := a.v.Shard(m.(M), &nonces[k], rands[k])
 		if err != nil {
-			return nil, &opErr{"Shard", err}
+			return nil, nil, &opErr{"Shard", err}
 		}
 		sts := make([]*ST, n)
 		pss := make([]PS, n)
 		for i := 0; i < n; i++ {
 			st, ps, err := a.v.PrepInit(vk, &nonces[k], uint8(i), pub, ins[i])
 			if err != nil {
-				return nil, &opErr{"PrepInit", err}
+				return nil, nil, &opErr{"PrepInit", err}
 			}
 			sts[i], pss[i] = st, *ps
 		}
 		msg, err := a.v.PrepSharesToPrep(pss)
 		if err != nil {
-			return nil, &opErr{"PrepSharesToPrep", err}
+			return nil, nil, &opErr{"PrepSharesToPrep", err}
 		}
 		for i := 0; i < n; i++ {
 			out, err := a.v.PrepNext(sts[i], msg)
 			if err != nil {
-				return nil, &opErr{"PrepNext", err}
+				return nil, nil, &opErr{"PrepNext", err}
 			}
 			a.v.AggregateUpdate(&aggs[i], out)
 		}
+		if k+1 == half {
+			if mid, err = collect(uint(half)); err != nil {
+				return nil, nil, err
+			}
+		}
 	}
-	r, err := a.v.Unshard(aggs, uint(len(ms)))
+	final, err = collect(uint(len(ms)))
 	if err != nil {
-		return nil, &opErr{"Unshard", err}
+		return nil, nil, err
 	}
-	return any(*r), nil
+	again, err2 := collect(uint(len(ms)))
+	if err2 != nil || fmt.Sprint(final) != fmt.Sprint(again) {
+		return nil, nil, notRepeatable(name, "Unshard", fmt.Sprint(final), fmt.Sprint(again, " ", errStr(err2)))
+	}
+	return mid, final, nil
 }
 
 // ---------------------------------------------------------------------------
